@@ -592,8 +592,8 @@ pub fn plan(prop: &str, tier: &str) -> Option<Plan> {
                 s.extend(mk(H_GOOD, 64, 160, 6, "chk", false, 45.0));
                 s.extend(mk(H_LOW, 33, 48, 3, "chk", false, 45.0));
                 s.extend(mk(H_CONST, 20, 24, 1, "chk", false, 45.0));
-                s.extend(mk(H_GOOD, 33, 24, 5, "asan", false, 45.0));
-                s.extend(mk(H_TAG, 12, 6, 1, "asan", false, 45.0));
+                s.extend(mk(H_GOOD, 33, 20, 6, "asan", false, 45.0));
+                s.extend(mk(H_TAG, 10, 6, 3, "asan", false, 45.0));
                 s.extend(mk(H_GOOD, 12, 12, 1, "chk", true, 45.0));
                 bounds = json!({"E4": "family: growth path to N=64 + states directly after one shaping deviation (<=160 states, chk; N=33, <=24 states asan); every op of the C01-style alphabet (class keys) x every callback kind x every crash point; post-fault oracle, a tour of 12 calls, the growth path across the next resize, shrink/clone/drain; per-call continuations for N<=12"});
             } else {
